@@ -43,11 +43,11 @@ pub fn check_swap_edge(pre: &pm::PoolInfo, post: &pm::PoolInfo, offer: &str, amt
             let dec = |d: &str| pre.asset_decimals[pre.asset_denoms.iter().position(|x| x == d).unwrap()] as u32;
             let ann = BigInt::from(amp) * BigInt::from(n as u64);
             let mut others = vec![];
-            for (c, dd) in pre.assets.iter().zip(&pre.asset_decimals) {
+            for c in pre.assets.iter() {
                 if c.denom != ask {
-                    let mut x = scale(c.amount.u128(), *dd as u32, maxd, K);
+                    let mut x = scale(c.amount.u128(), dec(&c.denom), maxd, K);
                     if c.denom == offer {
-                        x += scale(amt, *dd as u32, maxd, K);
+                        x += scale(amt, dec(&c.denom), maxd, K);
                     }
                     others.push(x);
                 }
@@ -62,7 +62,7 @@ pub fn check_swap_edge(pre: &pm::PoolInfo, post: &pm::PoolInfo, offer: &str, amt
                     let mut others_hi = others.clone();
                     {
                         let mut idx = 0;
-                        for (c, _) in pre.assets.iter().zip(&pre.asset_decimals) {
+                        for c in pre.assets.iter() {
                             if c.denom != ask {
                                 if c.denom == offer {
                                     others_hi[idx] += scale(2, dec(offer), maxd, K);
@@ -165,7 +165,16 @@ pub fn oracle(c: &PuCtx, rec: &mut Rec) {
 
 #[derive(Clone, Debug, Serialize, Deserialize, PartialEq)]
 pub enum ScOp {
-    Setup { decs: Vec<u8>, res: Vec<u128>, amp: Option<u64>, fees: FeeSpec },
+    Setup {
+        decs: Vec<u8>,
+        res: Vec<u128>,
+        amp: Option<u64>,
+        fees: FeeSpec,
+        /// create the pool with its denoms in reverse (non-alphabetical) order and follow the first deposit with a dust
+        /// deposit carrying the deposit tolerance 1
+        #[serde(default)]
+        unsorted_dust: bool,
+    },
     Swap { i: usize, j: usize, amt: u128 },
 }
 #[derive(Clone, Default, Debug, PartialEq, Eq, Hash)]
@@ -280,13 +289,22 @@ impl Checker for SwapChain {
 impl SwapChain {
     fn exec(&self, w: &mut World, op: &ScOp) -> Outcome {
         match op {
-            ScOp::Setup { decs, res, amp, fees } => {
+            ScOp::Setup { decs, res, amp, fees, unsorted_dust } => {
                 let dn: Vec<String> = DN[..decs.len()].iter().map(|s| s.to_string()).collect();
-                let o = apply(w, &PuOp::CreatePool { u: OWNER, denoms: dn.clone(), decimals: decs.clone(), fees: fees.clone(), amp: *amp, id: Some("g".into()), funds: vec![("uom".into(), 8888), ("uusd".into(), 1000)] });
+                let (mut cdn, mut cdec) = (dn.clone(), decs.clone());
+                if *unsorted_dust {
+                    cdn.reverse();
+                    cdec.reverse();
+                }
+                let o = apply(w, &PuOp::CreatePool { u: OWNER, denoms: cdn, decimals: cdec, fees: fees.clone(), amp: *amp, id: Some("g".into()), funds: vec![("uom".into(), 8888), ("uusd".into(), 1000)] });
                 if !o.is_ok() {
                     return o;
                 }
-                apply(w, &PuOp::Provide { u: OWNER, pool: "o.g".into(), funds: dn.into_iter().zip(res.iter().cloned()).collect(), lock: None, lock_id: None, recv: None, liq_slip: None, swap_slip: None })
+                let o = apply(w, &PuOp::Provide { u: OWNER, pool: "o.g".into(), funds: dn.iter().cloned().zip(res.iter().cloned()).collect(), lock: None, lock_id: None, recv: None, liq_slip: None, swap_slip: None });
+                if !o.is_ok() || !*unsorted_dust {
+                    return o;
+                }
+                apply(w, &PuOp::Provide { u: B, pool: "o.g".into(), funds: dn.into_iter().map(|d| (d, 1u128)).collect(), lock: None, lock_id: None, recv: None, liq_slip: Some(10_000), swap_slip: None })
             }
             ScOp::Swap { i, j, amt } => {
                 let Some(p) = observe_pool(w, "o.g") else { return Outcome::Rejected("no pool".into()) };
@@ -302,7 +320,7 @@ pub fn chain_pools(tier: Tier) -> Vec<(String, ScOp)> {
     for (fi, f) in feesets.iter().enumerate() {
         // constant product
         for (x, y) in tier.pick(vec![(1001u128, 1003u128), (5_000, 1_200_000), (10u128.pow(12), 3 * 10u128.pow(18))], vec![(1001, 1003), (1100, 900_000), (5_000, 1_200_000), (10u128.pow(9), 10u128.pow(9) + 1), (10u128.pow(12), 3 * 10u128.pow(18)), (10u128.pow(24), 10u128.pow(25))]) {
-            v.push((format!("cp-{x}-{y}-f{fi}"), ScOp::Setup { decs: vec![6, 6], res: vec![x, y], amp: None, fees: f.clone() }));
+            v.push((format!("cp-{x}-{y}-f{fi}"), ScOp::Setup { decs: vec![6, 6], res: vec![x, y], amp: None, fees: f.clone(), unsorted_dust: false }));
         }
         let amps: Vec<u64> = tier.pick(vec![1, 100], vec![1, 10, 100, 5000, 1_000_000]);
         let decsets: Vec<Vec<u8>> = tier.pick(vec![vec![6, 6], vec![6, 18], vec![8, 6], vec![6, 12], vec![6, 6, 6, 6]], vec![vec![6, 6], vec![6, 18], vec![18, 6], vec![8, 6], vec![6, 12], vec![6, 9, 12], vec![6, 12, 18], vec![6, 6, 6, 6]]);
@@ -312,7 +330,10 @@ pub fn chain_pools(tier: Tier) -> Vec<(String, ScOp)> {
                 for (m, e) in &mags {
                     for skew in tier.pick(vec![1u128, 1000], vec![1u128, 3, 1000]) {
                         let res: Vec<u128> = decs.iter().enumerate().map(|(i, d)| m * 10u128.pow((*d as i32 + e) as u32) * if i == 0 { skew } else { 1 }).collect();
-                        v.push((format!("ss-a{amp}-{decs:?}-{m}e{e}-s{skew}-f{fi}"), ScOp::Setup { decs: decs.clone(), res, amp: Some(*amp), fees: f.clone() }));
+                        v.push((format!("ss-a{amp}-{decs:?}-{m}e{e}-s{skew}-f{fi}"), ScOp::Setup { decs: decs.clone(), res: res.clone(), amp: Some(*amp), fees: f.clone(), unsorted_dust: false }));
+                        if skew == 1 && *m == 100 {
+                            v.push((format!("ss-a{amp}-{decs:?}-{m}e{e}-s{skew}-f{fi}-unsorted+dust"), ScOp::Setup { decs: decs.clone(), res, amp: Some(*amp), fees: f.clone(), unsorted_dust: true }));
+                        }
                     }
                 }
             }
